@@ -24,6 +24,8 @@ Definition c14_model_obs (c : term) : term :=
     if str_eqb variant (lit "host") then host_obs st0 f
     else if str_eqb variant (lit "catch") then
       host_obs st0 (lit "set c [catch {" ++ f ++ lit "} r o]; rec caught $c $r [dict get $o -code] [dict get $o -errorcode] [dict get $o -errorinfo] $errorCode $errorInfo")
+    else if str_eqb variant (lit "catchafter") then
+      host_obs st0 (lit "catch {error earlier}; set c [catch {" ++ f ++ lit "} r o]; rec caught $c $r [dict get $o -code] [dict get $o -errorcode] [dict get $o -errorinfo] $errorCode $errorInfo")
     else if str_eqb variant (lit "rethrow") then
       host_obs st0 (lit "catch {" ++ f ++ lit "} r o; rec first [dict get $o -errorinfo]; return {*}$o $r")
     else if str_eqb variant (lit "rethrow3") then
@@ -86,7 +88,7 @@ Definition c14_spec_ok (c obs : term) : bool :=
   match term_list obs with
   | [out; TList calls] =>
       if str_eqb variant (lit "host") then host_ok c out && match calls with [] => true | _ => false end
-      else if str_eqb variant (lit "catch") then
+      else if str_eqb variant (lit "catch") || str_eqb variant (lit "catchafter") then
         match calls with
         | [TList [TStr _; TStr code; TStr msg; TStr ocode; TStr ecode; TStr einfo; TStr gcode; TStr ginfo]] =>
             str_eqb code (lit "1") && str_eqb ocode (lit "1")
@@ -125,5 +127,13 @@ Definition c14_spec_ok (c obs : term) : bool :=
         end
   | _ => false
   end.
-Definition c14_known (c : term) : bool := false.
+(* Known class (known_findings.json, finding D32): an error that consists in a script or body TEXT
+   failing to parse takes an early exit of eval_value that skips the error bookkeeping - at top
+   level (or as the body handed to catch) it is not recorded in errorInfo / errorCode, and a
+   procedure whose body does not parse is not named by a "(procedure ...)" line.  Recognised by the
+   case's error source being one of the two unparsable texts of the generator (their expected
+   messages are the reader's); every other source is reported. *)
+Definition c14_known (c : term) : bool :=
+  let m := term_str (term_nth (term_nth c 1) 0) in
+  str_eqb m (lit "missing """) || str_eqb m (lit "missing close-bracket").
 Definition c14_nontrivial (c : term) : bool := Nat.ltb 0 (length (term_strs (term_nth c 2))).
